@@ -101,8 +101,18 @@ def impl(case):
     w = ks.astype(float)
     ryt, ryp, rsf = np.repeat(yt, ks), np.repeat(yp, ks), [str(x) for x in np.repeat(np.array(sf), ks)]
     # (y_true, y_pred, sensitive, weights or None) per variant
+    import pandas as pd
+    n_ = len(yt)
+    perm = [(i * 5 + 2) % n_ for i in range(n_)]
+    if len(set(perm)) != n_:
+        perm = list(range(n_ - 1, -1, -1))
+    # implementation-only variants (no model counterpart): the weights in a pandas Series whose index labels
+    # are a permutation (rows must still pair by position), and a second use of the very same argument objects
     data = {"weighted": (yt, yp, sf, w), "replicated": (ryt, ryp, rsf, None), "scaled": (yt, yp, sf, c * w),
-            "omitted": (yt, yp, sf, None), "ones": (yt, yp, sf, np.ones(len(yt)))}
+            "omitted": (yt, yp, sf, None), "ones": (yt, yp, sf, np.ones(len(yt))),
+            "weighted_labelled": (yt, yp, sf, pd.Series(w, index=perm)),
+            "weighted_again": (yt, yp, sf, w)}
+    sp_first = {}
     kind = case["kind"]
     res = {}
     if kind == "base":
@@ -124,6 +134,10 @@ def impl(case):
                 else:
                     metrics = getattr(fm, names[0])
                     sp = None if sw is None else {"sample_weight": sw}
+                if vn == "weighted":
+                    sp_first["sp"] = sp
+                elif vn == "weighted_again":
+                    sp = sp_first.get("sp", sp)       # the SAME dict object a second time
                 mf = fm.MetricFrame(metrics=metrics, y_true=a, y_pred=b, sensitive_features=s, sample_params=sp)
                 ov, bg = mf.overall, mf.by_group
                 for n in names:
@@ -204,7 +218,10 @@ def _vs_model(a, m):
 
 REL = [("weighted", "replicated", "weight k differs from k unit-weight copies"),
        ("weighted", "scaled", "rescaling all weights changes the result"),
-       ("omitted", "ones", "omitted weights differ from all-ones weights")]
+       ("omitted", "ones", "omitted weights differ from all-ones weights"),
+       ("weighted", "weighted_labelled", "weights carried in a pandas Series with permuted index labels are not "
+                                         "paired with the rows by position"),
+       ("weighted", "weighted_again", "a second call with the very same argument objects gives another result")]
 
 
 def compare(case, out, model):
